@@ -167,7 +167,7 @@ def cases():
             lays = families.all_layouts(3, 2 if tier == 'quick' else 3)
             for lay in lays:
                 out.append({'label': '%s/layout%s' % (m.name, lay), 'mesh': m, 'fields': UNIQUE_FIELD_SETS[1], 'layout': [lay], 'geom': 1})
-    for r in range(6 if tier == 'quick' else 40):
+    for r in range(6 if tier == 'quick' else 200):
         nd = rnd.choice([2, 3])
         m = families.random_mesh(rnd, nd, max_levels=2 if tier == 'quick' else 3, max_boxes=4)
         m.name = 'rand%d-%dd' % (r, nd)
